@@ -75,6 +75,86 @@ def corrupt_apply(run):
     return None
 
 
+def corrupt_bits_read(run):
+    """a value read back from the bit stream changed by one"""
+    for e in run:
+        if e.get("op") == "bits" and e.get("ok") and e.get("rd"):
+            e["rd"][-1] = e["rd"][-1] ^ 1
+            return run
+    return None
+
+
+def corrupt_ctor(run):
+    """an operand of a constructed match changed by one"""
+    for e in run:
+        if e.get("op") == "ctor" and e.get("ok"):
+            e["got"] = dict(e["got"], len=e["got"]["len"] + 1)
+            return run
+    return None
+
+
+def corrupt_choose(run):
+    """the two twin selectors disagree"""
+    for e in run:
+        if e.get("op") == "choose" and e.get("k_ref") == "far1s":
+            e["k_meta"] = "far2s"
+            return run
+    return None
+
+
+def corrupt_refenc(run):
+    """one byte of a reference-encoded match changed"""
+    for e in run:
+        if e.get("op") == "refenc" and e.get("ok") and e.get("kind") == "far2s" and 258 <= e["d"] <= 65793 and 2 <= e["len"] <= 33:
+            e["bytes"][1] = (e["bytes"][1] + 1) % 256
+            return run
+    return None
+
+
+def corrupt_refrec(run):
+    """one literal byte of a reference-encoded record changed"""
+    for e in run:
+        if e.get("op") == "refrec" and e.get("ok") and len(e["frame"]) > 3:
+            e["frame"][-1] = (e["frame"][-1] + 1) % 256
+            return run
+    return None
+
+
+def corrupt_gmatch(run):
+    """a dictionary match reported with other bytes than the pattern"""
+    for e in run:
+        if e.get("op") == "gmatch":
+            for q in e["probes"]:
+                if q["found"] and q["dslice"]["len"] > 0:
+                    q["dslice"] = {"len": q["dslice"]["len"], "h": [q["dslice"]["h"][0], (q["dslice"]["h"][1] + 1) % (1 << 30)]}
+                    return run
+    return None
+
+
+def corrupt_reload(run):
+    """a reloaded dictionary with another text"""
+    for e in run:
+        if e.get("op") == "reload" and e.get("ok"):
+            e["text"] = {"len": e["text"]["len"] + 1, "h": e["text"]["h"]}
+            return run
+    return None
+
+
+def only_variant(path, variant, out, keep_event=None):
+    """the runs of one variant of a trace file, written to `out` (self-tests corrupt the first suitable run);
+    keep_event drops events that the strict contract rejects anyway (known findings), so that the corruption is
+    what gets rejected"""
+    evs = vlib.read_ndjson(path)
+    keep = [e for r in vlib.split_runs(evs) if r[0].get("variant") == variant for e in r
+            if e.get("op") == "reset" or keep_event is None or keep_event(e)]
+    vlib.write_ndjson(out, keep)
+    return out
+
+
+def refenc_in_range(e):
+    return e.get("kind") == "far2s" and 258 <= e["d"] <= 65793 and 2 <= e["len"] <= 33
+
+
 def run(ctx):
     ctx.build(BIN)
     # --- the executable semantics: laws, and the codec model pinned to the loop condition of the code
@@ -91,13 +171,17 @@ def run(ctx):
     if nbeh == 0:
         raise vlib.ToolError("MC_PaZipStreamGen produced no items")
     s2 = ctx.harness(BIN, "replay", "b2", extra={"in": beh})
+    # --- mechanism probes: bit stream, Match constructors, kind selectors, reference byte encoder (read back by the
+    #     specification), dictionary matchers
+    s3 = ctx.harness(BIN, "probe", "b3")
     # --- B1: every subject x payload family
     s1 = ctx.harness(BIN, "drive", "b1", extra={"threads": min(ctx.jobs, 8)}, timeout=2400 if ctx.thorough else 900)
     b1files = sorted(glob.glob(os.path.join(s1["_out"], "*.ndjson")))
     b2files = sorted(glob.glob(os.path.join(s2["_out"], "*.ndjson")))
+    b3files = sorted(glob.glob(os.path.join(s3["_out"], "*.ndjson")))
     # the files that need the two-pass treatment (several TLC starts each) go first; C1-only JIT: the runs are short
-    heavy = ("rans", "hybrid", "adaptive", "realtime", "simdlz77", "pazip", "fse", "b2")
-    files = sorted(b1files + b2files, key=lambda f: (0 if any(h in os.path.basename(f) for h in heavy) else 1, -os.path.getsize(f)))
+    heavy = ("adaptive", "realtime", "simdlz77", "pazip_reference", "b3")
+    files = sorted(b1files + b2files + b3files, key=lambda f: (0 if any(h in os.path.basename(f) for h in heavy) else 1, -os.path.getsize(f)))
     ctx.validate(TRACE, files, what="compressor round trip / PA-Zip match stream", max_reject_per_file=60,
                  timeout=900 if ctx.thorough else 300, jvm="-Xmx2g -XX:TieredStopAtLevel=1")
     # --- binding self-tests: corrupted results must be rejected
@@ -110,10 +194,26 @@ def run(ctx):
     applyf = [f for f in b2files if any(e.get("op") == "apply" and e.get("ok") for e in vlib.read_ndjson(f))]
     if applyf:
         ctx.selftest_corrupt(TRACE, applyf[0], corrupt_apply, "one byte of an interpreter output changed")
+    for variant, fn, what in (("bits", corrupt_bits_read, "a value read back from the bit stream changed"),
+                              ("ctor", corrupt_ctor, "operand of a constructed match changed by one"),
+                              ("choose", corrupt_choose, "twin kind selectors made to disagree"),
+                              ("refenc", corrupt_refenc, "one byte of a reference-encoded match changed"),
+                              ("refrec", corrupt_refrec, "last byte of a reference-encoded record changed"),
+                              ("gmatch", corrupt_gmatch, "dictionary match reported over other bytes than the pattern")):
+        ctx.selftest_corrupt(TRACE, only_variant(b3files[0], variant, os.path.join(ctx.work, "st-%s.ndjson" % variant),
+                                                 refenc_in_range if variant == "refenc" else None), fn, what)
+    pz = [f for f in b1files if os.path.basename(f).startswith("c02-pazip_default")]
+    if pz:
+        evs = vlib.read_ndjson(pz[0])
+        keep = [e for r in vlib.split_runs(evs) if any(x.get("op") == "reload" and x.get("ok") for x in r) for e in r][:4000]
+        rl = os.path.join(ctx.work, "st-reload.ndjson")
+        vlib.write_ndjson(rl, [e for r in vlib.split_runs(keep)[:1] for e in r])
+        ctx.selftest_corrupt(TRACE, rl, corrupt_reload, "reloaded dictionary reported with another text")
     # --- evidence
     cov = ctx.cov
     subs = s1.get("subjects", {})
-    cov["evaluations"] = s1.get("events", 0) + s2.get("events", 0)
+    cov["evaluations"] = s1.get("events", 0) + s2.get("events", 0) + s3.get("events", 0)
+    cov["b3_probe_events"] = s3.get("counts", {})
     cov["b1_events"] = s1.get("events", 0)
     cov["b1_runs"] = s1.get("runs", 0)
     cov["b1_crashes"] = s1.get("crashes", 0)
@@ -140,7 +240,7 @@ def run(ctx):
         f["decompress_refused"] += d.get("decompress_refused", 0)
         f["panics"] += d.get("panics", 0)
         f["max_payload"] = max(f["max_payload"], d.get("max_payload", 0))
-    cov["distinct_nontrivial"] = nontrivial + s2.get("executions", 0)
+    cov["distinct_nontrivial"] = nontrivial + s2.get("executions", 0) + s3.get("events", 0) - s3.get("runs", 0)
     cov["subjects"] = len(subs)
     cov["subject_variants"] = sum(len(d.get("variants", [])) for d in subs.values())
     cov["families"] = fams
@@ -154,7 +254,10 @@ def run(ctx):
                    "single-symbol runs, periodic with period 1..40, block-gap-block repeats with gaps 100..70000, text, random 2 B..64 KiB, "
                    "256-symbol alphabets, skewed alphabets, phrase x 64 KiB, slices of the training corpus; thorough: up to 4 MiB). "
                    "B2: + one execution per TLC-generated match sequence (every Match kind at min / max / +-1 of every operand range, all "
-                   "pairs of 10 and triples of 6 representatives, 100 well-formed streams applied by the two interpreters).  Refused "
+                   "pairs of 10 and triples of 6 representatives, 100 well-formed streams applied by the two interpreters).  B3: + one per "
+                   "mechanism probe (bit-stream sequences over widths 0..32, Match constructors / kind selectors / reference encoder at the "
+                   "boundaries of every operand range, compress_record_reference records read back by the specification, dictionary "
+                   "matcher probes).  Refused "
                    "compressions are not counted; subjects with no decompression at all are listed as vacuous.")
     if b1files:
         for f in b1files:
@@ -181,7 +284,9 @@ def replay(ctx, path):
     subj = rep.get("subject") or ""
     ctx.tier = rep.get("tier", ctx.tier)
     ctx.seed = rep.get("seed", ctx.seed)
-    if subj.startswith("pazipstream"):
+    if subj.startswith("pazipmech"):
+        s = ctx.harness(BIN, "probe", "rp", subject=subj)
+    elif subj.startswith("pazipstream"):
         deep = "_deep" if ctx.tier == "thorough" else ""
         beh, _ = ctx.tlc_generate("MC_PaZipStream", cfg="MC_PaZipStreamGen%s.cfg" % deep, workers=4, timeout=900)
         s = ctx.harness(BIN, "replay", "rp", extra={"in": beh}, subject=subj)
